@@ -13,7 +13,8 @@ Each case is one top-level function of a real project; both modes are generated;
 judges with Project!EventNames / OptionalNames: exactly one listener per distinct required name (names on
 undocumented receivers / placements may or may not have one), subscribed to exactly that name, under a legal and
 unique function identifier; no events => no events.ts and no re-export.  Payload types of the documented payload
-forms are judged by Trace_Types (TypeLang) and `unknown` is required where the type is not evident.
+forms are judged by Trace_Types (TypeLang) and `unknown` is required where the type is not evident; the same forms
+over names the configuration maps (type_mappings) must be typed with the mapping's target in both modes.
 """
 import json
 import os
@@ -74,6 +75,26 @@ PAYLOAD_FORMS = [
     ("ref_clone", "p8: Pay", "", "&p8.clone()", {"k": "named", "n": "Pay"}),
     ("typed_let_qualified", "", "let tlq: crate::Pay = make();", "tlq", {"k": "named", "n": "Pay"}),
     ("typed_param_tuple", "tp: (u8, Pay)", "", "tp", {"k": "tup", "ts": [{"k": "leaf", "c": "num"}, {"k": "named", "n": "Pay"}]}),
+]
+
+# the same documented forms where the evident type is, or contains, a name the configuration maps (C05 through the
+# configured type mappings): the listener's payload type is the mapping's target, in both modes
+M_STAMP = {"k": "mapped", "n": "Stamp", "base": "Stamp", "to": "number"}
+M_LABEL = {"k": "mapped", "n": "Label", "base": "Label", "to": "string"}
+PAYLOAD_MAPPINGS = {"Stamp": "number", "Label": "string"}
+MAPPED_PAYLOAD_FORMS = [
+    ("m_struct_expr", "", "", "Stamp { v: 1 }", M_STAMP),
+    ("m_typed_param", "s1: Stamp", "", "s1", M_STAMP),
+    ("m_typed_param_ref", "s2: &Label", "", "s2", M_LABEL),
+    ("m_typed_param_vec", "s3: Vec<Stamp>", "", "s3", {"k": "vec", "a": M_STAMP}),
+    ("m_typed_param_opt", "s4: Option<Label>", "", "s4", {"k": "opt", "a": M_LABEL}),
+    ("m_typed_param_map", "s5: HashMap<String, Stamp>", "", "s5", {"k": "hmap", "a": {"k": "leaf", "c": "str"}, "b": M_STAMP}),
+    ("m_typed_param_tuple", "s6: (Label, Stamp)", "", "s6", {"k": "tup", "ts": [M_LABEL, M_STAMP]}),
+    ("m_typed_param_mixed", "s7: Vec<(Pay, Stamp)>", "", "s7", {"k": "vec", "a": {"k": "tup", "ts": [{"k": "named", "n": "Pay"}, M_STAMP]}}),
+    ("m_typed_let", "", "let s8: Stamp = stamp();", "s8", M_STAMP),
+    ("m_borrow", "s9: Label", "", "&s9", M_LABEL),
+    ("m_clone", "s10: Stamp", "", "s10.clone()", M_STAMP),
+    ("m_unmapped", "s11: Vec<Pay>", "", "s11", {"k": "vec", "a": {"k": "named", "n": "Pay"}}),
 ]
 
 
@@ -140,10 +161,19 @@ def run(tier, seed):
         pemits.append({"name": "pay-" + pid.replace("_", "-"), "receiver": "app", "placed": "ok_recv", "frames": [], "lit": True})
     psrc += "#[tauri::command]\npub fn keep_pay(p: Pay) {}\n"
     projects.append(("payloads", psrc, pemits))
+    # (6) the same with configured type mappings
+    msrc = psrc + "#[derive(Serialize, Deserialize, Clone)]\npub struct Stamp {\n    pub v: i64,\n}\n#[derive(Serialize, Deserialize, Clone)]\npub struct Label {\n    pub v: String,\n}\nfn stamp() -> Stamp { Stamp { v: 0 } }\n"
+    memits = list(pemits)
+    for j, (pid, params, pre, expr, exp) in enumerate(MAPPED_PAYLOAD_FORMS):
+        msrc += "pub fn pay_%s(app: tauri::AppHandle%s) {\n    %s\n    app.emit(\"pay-%s\", %s).ok();\n}\n" % (
+            pid, (", " + params) if params else "", pre, pid.replace("_", "-"), expr)
+        memits.append({"name": "pay-" + pid.replace("_", "-"), "receiver": "app", "placed": "ok_recv", "frames": [], "lit": True})
+    projects.append(("payloads_mapped", msrc, memits))
 
     def work(job):
         (pid, src, emits), mode = job
-        b, res, texts = PC.run_project(d, "%s-%s" % (pid, mode), {"src/lib.rs": src}, mode=mode)
+        b, res, texts = PC.run_project(d, "%s-%s" % (pid, mode), {"src/lib.rs": src}, mode=mode,
+                                       extra_cfg={"type_mappings": PAYLOAD_MAPPINGS} if pid == "payloads_mapped" else None)
         ev, ls = listeners_event(b, texts, emits, "%s/%s" % (pid, mode))
         ev["status"] = res.status
         return ev, ls, pid, mode
@@ -154,7 +184,9 @@ def run(tier, seed):
         for ev, ls, pid, mode in ex.map(work, jobs):
             events.append(ev)
             if pid == "payloads":
-                payload_obs.append((mode, ls))
+                payload_obs.append((mode, ls, PAYLOAD_FORMS))
+            elif pid == "payloads_mapped":
+                payload_obs.append((mode, ls, MAPPED_PAYLOAD_FORMS))
     evs = [{k: v for k, v in e.items() if k != "status"} for e in events]
     for e in evs:
         if not e["emits"]:
@@ -193,9 +225,9 @@ def run(tier, seed):
     # payload types
     tevents = []
     tmeta = []
-    for mode, ls in payload_obs:
+    for mode, ls, forms in payload_obs:
         by_sub = {l["subscribed"]: l for l in ls}
-        for pid, params, pre, expr, exp in PAYLOAD_FORMS:
+        for pid, params, pre, expr, exp in forms:
             l = by_sub.get("pay-" + pid.replace("_", "-"))
             ts = l["payload"] if l else {"k": "missing"}
             if exp == "unknown":
@@ -219,8 +251,8 @@ def run(tier, seed):
                             {"form": pid, "mode": mode})
     rc = verdicts.finish()
     C.write_evidence(PROP, tier, seed, "exploration", {
-        "evaluations": (len(emit_cases) + len(name_cases) + len(PAYLOAD_FORMS)) * 2,
-        "distinct_nontrivial": len(emit_cases) + len(name_cases) + len(PAYLOAD_FORMS),
+        "evaluations": (len(emit_cases) + len(name_cases) + len(PAYLOAD_FORMS) + len(MAPPED_PAYLOAD_FORMS)) * 2,
+        "distinct_nontrivial": len(emit_cases) + len(name_cases) + len(PAYLOAD_FORMS) + len(MAPPED_PAYLOAD_FORMS),
         "rule": "one evaluation = one emit case (frame path x tail form x receiver x method x literal-ness, or one event name over [aB1-/:_] up to length 3, or one "
                 "payload form) in one mode; judged per generated project by TLC (Listeners) / per payload (Translate)",
         "samples": emit_cases[:3] + [{"name": cs(c["name"])} for c in name_cases[:3]],
